@@ -636,8 +636,11 @@ class Exec:
         rel_before = m.order_relation(sched) if pre_ok else None
         req_before = {k: set(v) for k, v in m.req.items()}
         m.keep_only(sched, op['remains'])
-        _, exc = self._call(lambda: self.objs[sched].keep_only(
-            [self.objs[r] for r in op['remains']]))
+        remains = [self.objs[r] for r in op['remains']]
+        if op.get('as_iter'):
+            # the parameter is typed Iterable: a one-shot generator is legal
+            remains = (job for job in list(remains))
+        _, exc = self._call(lambda: self.objs[sched].keep_only(remains))
         self.log.append((idx, 'keep_only', type(exc).__name__ if exc
                          else 'ok'))
         if prop != 'C18':
@@ -673,9 +676,13 @@ class Exec:
         req_before = {k: set(v) for k, v in m.req.items()}
         m.keep_only_between(sched, starts, ends, op['keep_starts'],
                             op['keep_ends'])
+        lib_starts = [self.objs[s] for s in starts]
+        lib_ends = [self.objs[e] for e in ends]
+        if op.get('as_iter'):
+            lib_starts = iter(list(lib_starts))
+            lib_ends = (job for job in list(lib_ends))
         _, exc = self._call(lambda: self.objs[sched].keep_only_between(
-            starts=[self.objs[s] for s in starts],
-            ends=[self.objs[e] for e in ends],
+            starts=lib_starts, ends=lib_ends,
             keep_starts=op['keep_starts'], keep_ends=op['keep_ends']))
         self.log.append((idx, 'keep_between', type(exc).__name__ if exc
                          else 'ok'))
@@ -697,7 +704,7 @@ class Exec:
 
     # ---- run what was built (C19)
     def do_run(self, prop, idx, op):
-        if prop not in ('C19', 'C01', 'C02'):
+        if prop not in ('C19', 'C01', 'C02', 'C03'):
             return
         real_bad = self.bad
 
@@ -707,6 +714,8 @@ class Exec:
             if prop == 'C01' and clause != 'run:order':
                 return
             if prop == 'C02' and clause == 'run:order':
+                return
+            if prop == 'C03' and clause != 'run:stuck':
                 return
             real_bad(prop, clause, 'after-api-history', msg, idx)
         self.bad = bad
